@@ -487,7 +487,7 @@ end
 
 /-- `root`: `all_consuming(terminated(op_0, multispace0 opt(";;") multispace0))` -/
 def parse (s : List Char) : PR Ast :=
-  match pOp0 (4 * s.length + 40) s with
+  match pOp0 (20 * s.length + 40) s with
   | .ok x r =>
     let r := r.dropWhile isSpace
     let r := match r with
